@@ -44,3 +44,8 @@ Proof. apply sqrt_one_div. Qed.
 Lemma sqrt_one_mul_inv a : sqrt (1 * / a) = 1 / sqrt a.
 Proof. apply (sqrt_one_div a). Qed.
 Ltac rat_nsatz' := rewrite ?sqrt_one_div', ?sqrt_one_mul_inv; unify_sqrts; sqrt_atoms; inv_atoms; keep_eqs; nsatz.
+Lemma cosh2_sinh2 x : cosh x * cosh x - sinh x * sinh x = 1.
+Proof.
+  unfold cosh, sinh. assert (Hm : exp x * exp (- x) = 1) by (rewrite <- exp_plus, Rplus_opp_r; apply exp_0).
+  set (a := exp x) in *. set (b := exp (- x)) in *. nra.
+Qed.
